@@ -34,7 +34,8 @@ ua  RemoveCodeTransformation(remove_unused_args=True) through the Scheduler over
     levels, used only as dimension of a (used / unused) dummy array, OPTIONAL unused dummy absent / passed by
     keyword, two calls, expression actual, function (InlineCall) with unused dummy, contained procedure with an
     unused dummy, dummy used only inside a contained procedure, array section actual, call inside a branch and a
-    loop, callee shared by two callers, upper-case spelling.
+    loop, callee shared by two callers, upper-case spelling, two calls of which the earlier passes the unused dummy
+    by keyword and the later by position in front of a used OPTIONAL dummy.
 
 Every combination of <= d blocks (d=1 quick, d=2 thorough) x the family's transformation variants is built twice
 (original / transformed; gfortran -O0 -fcheck=bounds -finit-integer) with the same harness-owned driver.  In the
@@ -323,6 +324,7 @@ UA_MENU = {
     'nested_call_site': [True],
     'shared_callee': [True],
     'upper_case': [True],
+    'mixed_calls': [True],
 }
 UA_DRIVER = '''program drv
   use umod
@@ -344,6 +346,8 @@ end program drv
 
 def ua_build(dev):
     U = 'U' if dev.get('upper_case') else 'u'
+    if dev.get('mixed_calls'):
+        return ua_mixed_calls(dev, U)
     pos = dev.get('position', 'middle')
     two = dev.get('two_unused')
     dim = dev.get('dim_only')
@@ -425,6 +429,27 @@ def ua_build(dev):
           '    r = r*2 + x', '  end subroutine k2',
           '  function f1(p, w, q) result(res)', '    integer, intent(in) :: p, w, q', '    integer :: res',
           '    res = p + mod(q, 5)', '  end function f1',
+          'end module umod']
+    return '\n'.join(L) + '\n'
+
+
+def ua_mixed_calls(dev, U):
+    """two calls to the same callee, the earlier passing the unused dummy by keyword, the later by position, behind
+    it a trailing OPTIONAL dummy that the callee does use: the set of positional arguments to drop differs per call"""
+    k1_body = ['r = r*3 + x', 'if (present(o)) r = r + 100*o']
+    k1_body.append(f'call k2(x, {U}, r)' if dev.get('two_levels') else 'call k2(x, 4, r)')
+    L = ['module umod', '  implicit none', 'contains',
+         '  subroutine top(x, y, r, a)', '    integer, intent(in) :: x, y', '    integer, intent(inout) :: r',
+         '    real, intent(inout) :: a(5)', '    integer :: i',
+         f'    call k1(x, r, o=3, {U.lower()}=y)', '    call k1(x + 1, r, 11)',
+         '    call k2(y, x, r)' if dev.get('shared_callee') else '    r = r + 1',
+         '  end subroutine top',
+         f'  subroutine k1(x, r, {U}, o)', '    integer, intent(in) :: x', '    integer, intent(inout) :: r',
+         f'    integer, intent(in) :: {U}', '    integer, intent(in), optional :: o']
+    L += ['    ' + ln for ln in k1_body]
+    L += ['  end subroutine k1',
+          '  subroutine k2(x, u2, r)', '    integer, intent(in) :: x, u2', '    integer, intent(inout) :: r',
+          '    r = r*2 + x', '  end subroutine k2',
           'end module umod']
     return '\n'.join(L) + '\n'
 
